@@ -175,26 +175,6 @@ def recogSet (h : Nat) (ck : Bool) (buf : Bytes) : Recog :=
                       | some key, some val => .set key val total
                       | _, _ => .crash
 
-/-- `std::str::from_utf8(bytes).is_ok()`: well-formed UTF-8 (no overlong form, no surrogate,
-    nothing above U+10FFFF) — the same byte classes as `utf8Lossy` -/
-def validUtf8 : Bytes → Bool
-  | [] => true
-  | b :: rest =>
-    if b < 128 then validUtf8 rest
-    else if 194 ≤ b ∧ b ≤ 223 then
-      (match rest with
-       | c1 :: r1 => isCont c1 && validUtf8 r1
-       | [] => false)
-    else if 224 ≤ b ∧ b ≤ 239 then
-      (match rest with
-       | c1 :: c2 :: r2 => ok3 b c1 && isCont c2 && validUtf8 r2
-       | _ => false)
-    else if 240 ≤ b ∧ b ≤ 244 then
-      (match rest with
-       | c1 :: c2 :: c3 :: r3 => ok4 b c1 && isCont c2 && isCont c3 && validUtf8 r3
-       | _ => false)
-    else false
-
 /-- REPAIRED body shared by `collect_get_keys` and `try_fast_get` (prepared fix): the CR that ends
     the length line must be followed by LF, the key must be valid UTF-8, and whatever is not taken
     is `notFast` (collector: `break`) — never `needMore` -/
